@@ -1,6 +1,6 @@
 (* C04 on the tables of the compiled crate *)
 From Coq Require Import NArith Bool List String.
-From PK Require Import Base.Outcome Gen.Types Impl Spec.Event Ext.Event ExtI.Ev Check.Ev.
+From PK Require Import Base.Outcome Gen.Types Impl Spec.Mods Ext.Event ExtI.Ev Check.EvImpl.
 Import ListNotations.
 
 Lemma C04_ext_step : cex_step ext_ev = []. Proof. vm_compute. reflexivity. Qed.
